@@ -2331,9 +2331,12 @@ public:
     SBEPP_CPP20_CONSTEXPR std::size_t operator()(size_bytes_tag) const noexcept
     {
         auto dimension = (*this)(get_header_tag{});
+        // the product must not be evaluated in the (promoted) header field
+        // types, it can exceed 32 bits
         return sbepp::size_bytes(dimension)
-               + dimension.numInGroup().value()
-                     * dimension.blockLength().value();
+               + static_cast<std::size_t>(dimension.numInGroup().value())
+                     * static_cast<std::size_t>(
+                         dimension.blockLength().value());
     }
 
     //! @brief Returns header's `numInGroup`
